@@ -603,6 +603,14 @@ func (fr *Frame) run(entryReach string, entryMem *MemState) {
 		}
 		fr.memOut[b] = fr.curMem
 		fr.reach[b] = fr.curReach // calls that may not return narrow the reach of the rest of the block
+		// "at loopexit#N assert e": checked on the edge that leaves loop N from its head (the loop ran to completion)
+		if l0 := fr.loops[b]; l0 != nil && fr.isTop && ex.topContract != nil {
+			for _, sc := range b.Succs {
+				if !l0.body[sc] {
+					fr.loopExitClauses(l0, b, sc)
+				}
+			}
+		}
 		// back edges out of this block: check invariants
 		for _, s := range b.Succs {
 			if l2 := fr.loops[s]; l2 != nil && l2.body[b] && isBackEdge(b, s) {
@@ -1309,6 +1317,9 @@ func allocGetsObjectField(a *ssa.Alloc) bool {
 		return false
 	}
 	for _, r := range *a.Referrers() {
+		if st, ok := r.(*ssa.Store); ok && st.Addr == a {
+			return true // the whole struct (a by-value copy of another object) is stored into it
+		}
 		if fa, ok := r.(*ssa.FieldAddr); ok && fa.Field == 0 && fa.Referrers() != nil {
 			for _, r2 := range *fa.Referrers() {
 				if st, ok := r2.(*ssa.Store); ok && st.Addr == fa {
@@ -1500,5 +1511,26 @@ func rootAlloc(v ssa.Value) *ssa.Alloc {
 		default:
 			return nil
 		}
+	}
+}
+
+func (fr *Frame) loopExitClauses(li *loopInfo, b, succ *ssa.BasicBlock) {
+	ex := fr.ex
+	for i, s := range ex.topContract.Sites {
+		if s.Callee != "loopexit" || s.Ord != li.ord || s.Kind != "assert" || !clauseApplies(s.Cl, ex.Prop) {
+			continue
+		}
+		reach := fr.edgeCond(b, succ)
+		ec := fr.evalCtx(fr.memOut[b], ex.topEntry)
+		ec.loop = li
+		ec.goal = true
+		g, err := ec.tryBool(s.Cl.E)
+		pos := b.Instrs[0].Pos()
+		if err != nil {
+			ex.failOb("contract-typechecks", fmt.Sprintf("loopexit#%d", li.ord), err.Error()+" in "+s.Cl.Src, pos)
+			continue
+		}
+		ex.oblige("assert", fmt.Sprintf("loopexit#%d.%d", li.ord, i+1), g, reach, "assertion when loop "+fmt.Sprint(li.ord)+" has run to completion: "+s.Cl.Src, pos, s.Cl.Prop)
+		ex.assume(g, reach)
 	}
 }
